@@ -152,7 +152,8 @@ func (f *c03Lnd) mark() int { f.mu.Lock(); defer f.mu.Unlock(); return len(f.add
 
 // c03Fund is the scenario-chosen funding result.  Layout is a string over
 // 'S' (the swap output), 'C' (a change / extra wallet output with another
-// value) and 'E' (a wallet output whose value EQUALS the swap amount).
+// value), 'E' (a wallet output whose value EQUALS the swap amount) and 'D'
+// (a decoy output paying the swap SCRIPT with another value).
 type c03Fund struct {
 	Layout string
 	NIn    int
@@ -222,6 +223,12 @@ func (w *c03Wk) FundPsbt(_ context.Context, in *walletrpc.FundPsbtRequest, _ ...
 			tx.AddTxOut(wire.NewTxOut(amount, c03ChangeScript()))
 			total += amount
 			change = int32(i)
+		case 'D':
+			// a decoy: the swap script with another value (a second payment to
+			// the same script, e.g. from an earlier attempt or a malicious maker)
+			dv := amount/2 + 333
+			tx.AddTxOut(wire.NewTxOut(dv, pk))
+			total += dv
 		default:
 			return nil, fmt.Errorf("bad layout %q", w.fund.Layout)
 		}
